@@ -162,3 +162,195 @@ def _avg_post(st, interp, C, res):
 U_CODE_AVERAGE = [Unit("_code_average[%d residues]" % n, FASTA + "._code_average", _avg_inputs(n), _avg_post,
                        contracts=dict(MX.MIX_CALLEE, **{"periodictable.formulas.formula": c_parse_formula_empty}),
                        replay={"module": "c18", "task": "replay"}) for n in (0, 1, 2, 3)]
+
+
+# ------------------------------------------------------------------------------ Molecule.__init__
+
+def _mol_table():
+    h1 = VObj("AtomStub", {"name": "H[1]"})
+    H = VObj("ElStub", {"name": "H", "iso": {1: h1}})
+    return VObj("TableStub", {"H": H, "D": VObj("AtomStub", {"name": "D"}), "T": VObj("AtomStub", {"name": "T"})}), h1
+
+
+def c_default_table(interp, st, args, kw):
+    return st.ghost["mol_table"]
+
+
+def c_elstub_getitem(interp, st, args, kw):
+    return args[0].attrs["iso"][args[1]]
+
+
+def c_mol_parse(interp, st, args, kw):
+    st.ghost["mol_parse_call"] = (list(args), dict(kw))
+    return st.ghost["mol_M"]
+
+
+def c_mol_replace(interp, st, args, kw):
+    src, tgt = args[1], args[2]
+    st.ghost.setdefault("mol_replace_calls", []).append((args[0], src, tgt))
+    mm = st.fresh("molecular_mass_of_replaced", z3.RealSort())
+    st.assume(mm > 0)
+    return VObj("FormulaStub", {"of": args[0], "replaced": (src.attrs["name"], tgt.attrs["name"]), "atoms": VDict([]),
+                                "mass": st.fresh("mass_of_replaced", z3.RealSort()), "molecular_mass": mm,
+                                "density": args[0].attrs["density"]})
+
+
+def c_mol_neutron_sld(interp, st, args, kw):
+    f = args[0]
+    st.ghost.setdefault("mol_sld_calls", []).append((f, dict(kw)))
+    return VTuple([st.fresh("sld_real", z3.RealSort()), st.fresh("sld_imag", z3.RealSort()), st.fresh("sld_incoh", z3.RealSort())])
+
+
+def c_mol_d2omatch(interp, st, args, kw):
+    st.ghost["mol_match_call"] = list(args)
+    return st.fresh("match", z3.RealSort())
+
+
+def _mol_inputs(mode):
+    def mk(st, interp):
+        use_state(st)
+        table, h1 = _mol_table()
+        st.ghost["mol_table"] = table
+        mm = st.fresh("molecular_mass", z3.RealSort())
+        rho = st.fresh("density", z3.RealSort())
+        st.assume(z3.And(mm > 0, rho > 0))
+        M = VObj("FormulaStub", {"atoms": VDict([]), "molecular_mass": mm, "mass": st.fresh("mass", z3.RealSort()),
+                                 "density": VOpt(z3.BoolVal(False), rho)})
+        st.ghost["mol_M"] = M
+        self = VObj((FASTA, "Molecule"), {})
+        name, text = VObj("Arg", {"what": "name"}), VObj("Arg", {"what": "formula"})
+        kw = {}
+        C = {"self": self, "M": M, "mm": mm, "rho": rho, "mode": mode, "name": name, "text": text, "table": table, "h1": h1}
+        if mode == "cell_volume":
+            C["cv"] = kw["cell_volume"] = st.fresh("cell_volume", z3.RealSort())
+            st.assume(C["cv"] >= 0)
+        else:
+            C["given_density"] = kw["density"] = VObj("Arg", {"what": "density"})
+        C["charge"] = kw["charge"] = VObj("Arg", {"what": "charge"})
+        return [self, name, text], kw, C
+    return mk
+
+
+def _mol_post(st, interp, C, res):
+    if res.outcome == "raise":
+        st.oblige("never-raises", False, kind="raises", info={"exc": res.exc})
+        return
+    a = C["self"].attrs
+    M = C["M"]
+    want = {"name", "cell_volume", "sld", "Dsld", "mass", "Dmass", "D2Omatch", "charge", "natural_formula", "labile_formula", "formula"}
+    st.oblige("post.has exactly the documented fields", z3.BoolVal(set(a) == want), info={"fields": sorted(a)})
+    if set(a) != want:
+        return
+    pargs, pkw = st.ghost.get("mol_parse_call", ([], {}))
+    st.oblige("post.the formula text is parsed once; a given density is its NATURAL density",
+              z3.BoolVal(len(pargs) == 1 and pargs[0] is C["text"] and set(pkw) == {"natural_density"}
+                         and (pkw["natural_density"] is C.get("given_density") if C["mode"] == "density" else pkw["natural_density"] is None)))
+    reps = st.ghost.get("mol_replace_calls", [])
+    ok = len(reps) == 2 and all(r[0] is M and r[1] is C["h1"] for r in reps) \
+        and reps[0][2] is C["table"].attrs["H"] and reps[1][2] is C["table"].attrs["D"]
+    st.oblige("post.H-form = labile H[1] -> H, D-form = labile H[1] -> D, both of the parsed formula", z3.BoolVal(ok))
+    if not ok:
+        return
+    H, D = a["natural_formula"], a["formula"]
+    st.oblige("post.labile_formula and formula are the parsed formula, natural_formula its H-form",
+              z3.BoolVal(a["labile_formula"] is M and a["formula"] is M and isinstance(H, VObj) and H.attrs.get("replaced") == ("H[1]", "H")))
+    slds = st.ghost.get("mol_sld_calls", [])
+    ok = len(slds) == 2 and slds[0][0].attrs.get("replaced") == ("H[1]", "H") and slds[1][0].attrs.get("replaced") == ("H[1]", "D") \
+        and not slds[0][1] and not slds[1][1]
+    st.oblige("post.sld / Dsld are neutron_sld (default wavelength) of the H-form / D-form", z3.BoolVal(ok))
+    Hf, Df = slds[0][0] if ok else None, slds[1][0] if ok else None
+    if ok:
+        st.oblige("post.mass / Dmass are the masses of the H-form / D-form",
+                  z3.BoolVal(a["mass"] is Hf.attrs["mass"] and a["Dmass"] is Df.attrs["mass"]))
+        mc = st.ghost.get("mol_match_call", [])
+        st.oblige("post.D2Omatch is computed from (sld, Dsld)", z3.BoolVal(len(mc) == 2 and mc[0] is a["sld"] and mc[1] is a["Dsld"]))
+    if C["mode"] == "cell_volume":
+        cv, mm = C["cv"], C["mm"]
+        st.oblige("post.cell_volume is the caller's", spec.eq_goal(interp, st, a["cell_volume"], cv))
+        d = M.attrs["density"]
+        dval = d.val if isinstance(d, VOpt) else d
+        st.oblige("post.density of the parsed formula = 1e24 M/(N_A V) for V > 0 (0 for an empty cell)",
+                  spec.eq_goal(interp, st, dval, z3.If(cv > 0, z3.RealVal(10 ** 24) * mm / cv, 0)))
+    else:
+        st.oblige("post.cell_volume = 1e24 M/(N_A rho)", spec.eq_goal(interp, st, a["cell_volume"], z3.RealVal(10 ** 24) * C["mm"] / C["rho"]))
+    st.oblige("post.name and charge are the caller's", z3.BoolVal(a["name"] is C["name"] and a["charge"] is C["charge"]))
+
+
+U_MOLECULE_INIT = [Unit("Molecule.__init__[%s]" % m, FASTA + ".Molecule.__init__", _mol_inputs(m), _mol_post,
+                        contracts={"periodictable.core.default_table": c_default_table, "ElStub.__getitem__": c_elstub_getitem,
+                                   "periodictable.formulas.formula": c_mol_parse, "FormulaStub.replace": c_mol_replace,
+                                   "periodictable.nsf.neutron_sld": c_mol_neutron_sld, FASTA + ".D2Omatch": c_mol_d2omatch},
+                        writes={"*"}, replay={"module": "c18", "task": "replay"})
+                   for m in ("cell_volume", "density")]
+
+
+# ------------------------------------------------------------------------------ Sequence.__init__
+
+def c_seq_parse(interp, st, args, kw):
+    st.ghost["seq_parse_arg"] = args[0]
+    return VObj("FormulaStub", {"hill": VObj("HillOf", {"structure": args[0]})})
+
+
+def c_seq_molinit(interp, st, args, kw):
+    st.ghost["seq_molinit"] = (list(args), dict(kw))
+    return None
+
+
+def _seq_inputs(text):
+    def mk(st, interp):
+        use_state(st)
+        letters = sorted(set(text) - set(" *"))
+        parts = {}
+        for ch in letters:
+            cv = st.fresh("cell_volume_" + ch, z3.RealSort())
+            q = st.fresh("charge_" + ch, z3.IntSort())
+            item = VTuple([st.fresh("count_" + ch, z3.RealSort()), VObj("AtomStub", {"name": "atom-of-" + ch})])
+            parts[ch] = VObj("MolStub", {"cell_volume": cv, "charge": q,
+                                         "labile_formula": VObj("FormulaStub", {"structure": VTuple([item])}), "item": item})
+        table = VDict([[ch, parts[ch]] for ch in letters])
+        self = VObj((FASTA, "Sequence"), {})
+        name = VObj("Arg", {"what": "name"})
+        return [self, name, text], {"type": "xx"}, {"self": self, "name": name, "parts": parts, "text": text}
+    return mk
+
+
+def _seq_env(text):
+    return None
+
+
+def _seq_post(st, interp, C, res):
+    text = C["text"]
+    clean = text.split("*", 1)[0].replace(" ", "")
+    if res.outcome == "raise":
+        st.oblige("never-raises", False, kind="raises", info={"exc": res.exc})
+        return
+    a = C["self"].attrs
+    st.oblige("post.sequence is the text up to the first '*' without blanks", z3.BoolVal(a.get("sequence") == clean), info={"got": str(a.get("sequence"))})
+    arg = st.ghost.get("seq_parse_arg")
+    items = list(arg.items) if isinstance(arg, (VList, VTuple)) else None
+    want = [C["parts"][ch].attrs["item"] for ch in clean]
+    st.oblige("post.the formula is built from the residues' labile structures, one per letter, in order",
+              z3.BoolVal(items is not None and len(items) == len(want) and all(x is y for x, y in zip(items, want))))
+    margs, mkw = st.ghost.get("seq_molinit", ([], {}))
+    ok = len(margs) == 3 and margs[0] is C["self"] and margs[1] is C["name"] and isinstance(margs[2], VObj) and margs[2].cls == "HillOf" \
+        and margs[2].attrs["structure"] is arg and set(mkw) == {"cell_volume", "charge"}
+    st.oblige("post.Molecule.__init__(self, name, <Hill form of that formula>, cell_volume=, charge=) is called", z3.BoolVal(ok))
+    if not ok:
+        return
+    cv = sum((C["parts"][ch].attrs["cell_volume"] for ch in clean), z3.RealVal(0))
+    q = sum((C["parts"][ch].attrs["charge"] for ch in clean), z3.IntVal(0))
+    st.oblige("post.cell_volume is the sum over the letters (with multiplicity)", spec.eq_goal(interp, st, mkw["cell_volume"], cv))
+    st.oblige("post.charge is the sum over the letters (with multiplicity)", spec.eq_goal(interp, st, mkw["charge"], q))
+
+
+def _seq_unit(text):
+    def mk(st, interp):
+        args, kw, C = _seq_inputs(text)(st, interp)
+        interp.env_overrides[(FASTA, "CODE_TABLES")] = VDict([["xx", VDict([[ch, p] for ch, p in C["parts"].items()])]])
+        return args, kw, C
+    return Unit("Sequence.__init__[%r]" % text, FASTA + ".Sequence.__init__", mk, _seq_post,
+                contracts={"periodictable.formulas.formula": c_seq_parse, FASTA + ".Molecule.__init__": c_seq_molinit},
+                writes={"*"}, replay={"module": "c18", "task": "replay"})
+
+
+U_SEQUENCE_INIT = [_seq_unit(t) for t in ("", "A", "AB", "ABA", "A B*AA", "*A")]
